@@ -136,14 +136,14 @@ def run(ctx):
     doms = [("qubit",) * n for n in range(4)]
     uni = list(build.expr_universe("circuit", circuit_sig(ctx.quick), doms, depth, 3))
     if ctx.quick:
-        uni = [r for r in uni if len(r[2]) <= 1] + [r for r in uni if len(r[2]) == 2][::4]
+        pass  # complete at this depth in the quick tier
     elif depth == 3:
         uni = [r for r in uni if len(r[2]) <= 2] + [r for r in uni if len(r[2]) == 3][::30]
         ctx.cap_hit("depth-3 circuits enumerated with stride 30 (depth <= 2 complete)")
     items += [("circuit", dict(recipe=r)) for r in uni]
     zuni = list(build.expr_universe("zx", zx_sig(), [(), (1,), (1, 1)], 2 if ctx.quick else 3, 3))
     if ctx.quick:
-        zuni = [r for r in zuni if len(r[2]) <= 1] + [r for r in zuni if len(r[2]) == 2][::5]
+        pass  # complete at this depth in the quick tier
     else:
         zuni = [r for r in zuni if len(r[2]) <= 2] + [r for r in zuni if len(r[2]) == 3][::40]
     items += [("zx_dagger", dict(recipe=r)) for r in zuni]
